@@ -57,3 +57,38 @@ func GoodDisjunction(xs []int, i int) []int {
 	}
 	return xs[len(xs)+i:]
 }
+
+// GoodSwitch: the same guard written as a switch (the && in a case clause is a value, not control flow).
+func GoodSwitch(xs []int, i int) []int {
+	if len(xs) == 0 || i >= len(xs) {
+		return nil
+	}
+	switch {
+	case i == 0:
+		return xs
+	case i < 0 && -i >= len(xs):
+		return xs
+	case i > 0:
+		return xs[i:]
+	default:
+		return xs[len(xs)+i:]
+	}
+}
+
+type cellOpts struct{ L *int }
+
+func cellSink(o *cellOpts) {}
+
+// GoodCell: an address-taken local (its address goes into an options struct) keeps its value between the
+// test and the use.
+func GoodCell(xs []int, n *int) []int {
+	k := -1
+	if n != nil && *n > -1 {
+		k = minI(*n, len(xs))
+	}
+	cellSink(&cellOpts{L: &k})
+	if k > -1 {
+		return xs[len(xs)-k:]
+	}
+	return xs
+}
